@@ -3,7 +3,7 @@ use super::*;
 use crate::choose::{Canon, Rng};
 use std::collections::BTreeSet;
 
-pub struct Vocab { pub classes: Vec<Vec<String>>, pub ord_class: usize, pub zero_class: usize, pub zeros: Vec<&'static str>, pub number_words: Vec<String>, pub linking: Vec<&'static str>, pub fillers: Vec<&'static str>, pub conj: &'static str, pub sep: &'static str, pub conj_alts: Vec<&'static str> }
+pub struct Vocab { pub classes: Vec<Vec<String>>, pub ord_class: usize, pub zero_class: usize, pub zeros: Vec<&'static str>, pub number_words: Vec<String>, pub linking: Vec<&'static str>, pub fillers: Vec<&'static str>, pub conj: &'static str, pub sep: &'static str, pub conj_alts: Vec<&'static str>, pub common: Vec<&'static str> }
 
 pub fn linking(lang: &str) -> Vec<&'static str> {
     match lang {
@@ -27,6 +27,23 @@ pub fn fillers(lang: &str) -> Vec<&'static str> {
         "nl" => vec!["beste","aarde","koeien","huis","de","het","lijst","groen","tafel","loopt","wij","straat","4x4","Ⅷ","ǅ","2e"],
         "pt" => vec!["último","próxima","vacas","casa","o","a","lista","verde","mesa","corre","nós","rua","4x4","Ⅷ","ǅ","meia","outra","vez","aí","está","tarde"],
         _ => panic!(),
+    }
+}
+
+/// Everyday words of each language: pronouns, articles, prepositions, frequent verbs / nouns / adverbs, and
+/// the words that typically stand next to numbers (units, quantities, approximators). They are ordinary,
+/// non-number, non-linking words for every oracle; `common_words` is filtered at start-up against the
+/// library's own answers so that a word the library does treat as a number or linking word is dropped.
+pub fn common_words_raw(lang: &str) -> Vec<&'static str> {
+    match lang {
+        "en" => vec!["i","you","he","she","it","we","they","me","him","her","my","your","his","our","their","this","these","those","here","there","where","when","why","how","what","who","which","not","very","just","also","only","even","still","too","much","many","few","some","any","all","each","every","other","such","same","than","now","today","tomorrow","always","never","often","soon","later","again","already","time","day","week","year","people","man","woman","child","world","life","hand","part","place","work","thing","number","page","room","floor","about","around","nearly","almost","exactly","over","under","between","after","before","into","from","without","for","of","in","on","at","by","to","as","but","or","if","because","while","do","did","have","had","be","are","was","were","can","could","will","would","may","must","go","came","see","get","make","take","know","think","say","good","new","old","big","small","long","double","triple","half","pair","dozen","percent","clock","times","minutes","hours","seconds","euros","dollars","kilos","miles","days","years","degrees"],
+        "fr" => vec!["je","tu","il","elle","nous","vous","ils","elles","me","te","se","mon","ton","son","notre","votre","leur","ce","cette","ces","ici","là","où","quand","pourquoi","comment","quoi","qui","que","ne","pas","très","aussi","seulement","même","toujours","jamais","souvent","bientôt","déjà","trop","beaucoup","peu","quelques","tout","tous","chaque","autre","tel","maintenant","aujourd'hui","demain","hier","temps","jour","semaine","année","gens","homme","femme","enfant","monde","vie","main","partie","place","travail","chose","nombre","page","chambre","étage","environ","presque","exactement","sur","sous","entre","après","avant","dans","de","sans","pour","à","en","par","comme","mais","ou","si","parce","pendant","faire","avoir","être","sont","était","peut","va","vient","voir","prendre","savoir","dire","bon","nouveau","vieux","grand","petit","long","double","triple","demi","paire","douzaine","pourcent","heure","heures","minutes","secondes","euros","francs","kilos","mètres","jours","ans","degrés","fois"],
+        "de" => vec!["ich","du","er","sie","es","wir","ihr","mich","dich","sich","mein","dein","sein","unser","euer","dieser","diese","dieses","hier","da","wo","wann","warum","wie","was","wer","welche","nicht","sehr","nur","sogar","immer","nie","oft","bald","später","wieder","bereits","zu","viel","viele","wenig","einige","alle","jeder","andere","solche","jetzt","heute","morgen","gestern","Zeit","Tag","Woche","Jahr","Leute","Mann","Frau","Kind","Welt","Leben","Hand","Teil","Platz","Arbeit","Ding","Nummer","Seite","Zimmer","Stock","etwa","ungefähr","fast","genau","über","unter","zwischen","nach","vor","in","von","ohne","für","mit","an","auf","bei","als","oder","wenn","weil","während","außer","machen","haben","hat","hatte","ist","sind","war","kann","wird","geht","kommt","sehen","nehmen","wissen","sagen","neu","alt","groß","klein","lang","doppelt","dreifach","halb","Paar","Dutzend","Prozent","Uhr","Minuten","Stunden","Sekunden","Euro","Kilo","Meter","Tage","Jahre","Grad","Mal","Acht"],
+        "es" => vec!["yo","tú","él","ella","nosotros","vosotros","ellos","me","te","se","mi","tu","su","nuestro","este","esta","estos","aquí","allí","donde","cuando","porque","como","qué","quién","cual","muy","también","solo","incluso","siempre","nunca","pronto","después","otra","demasiado","mucho","muchos","poco","algunos","todo","todos","cada","otro","tal","ahora","hoy","mañana","ayer","tiempo","día","semana","año","gente","hombre","mujer","niño","mundo","vida","mano","parte","lugar","trabajo","cosa","número","página","habitación","piso","casi","exactamente","sobre","bajo","entre","antes","de","sin","para","por","a","pero","si","mientras","hacer","tener","tiene","ser","está","era","puede","va","viene","ver","tomar","saber","decir","nuevo","viejo","grande","pequeño","largo","doble","triple","medio","par","docena","ciento","hora","horas","minutos","euros","pesos","kilos","metros","días","años","grados","veces","último","próximo"],
+        "it" => vec!["io","tu","lui","lei","noi","voi","loro","mi","ti","si","ci","vi","mio","tuo","suo","nostro","questo","questa","questi","qui","lì","dove","quando","perché","come","cosa","chi","quale","non","molto","anche","solo","persino","sempre","mai","spesso","presto","dopo","già","troppo","molti","poco","alcuni","tutto","tutti","ogni","altro","tale","ora","oggi","domani","ieri","tempo","giorno","settimana","anno","gente","uomo","donna","bambino","mondo","vita","mano","parte","posto","lavoro","numero","pagina","stanza","piano","circa","quasi","esattamente","sopra","sotto","tra","prima","in","di","da","senza","per","a","con","su","ma","o","se","mentre","fare","avere","ha","essere","sono","era","può","va","viene","vedere","prendere","sapere","dire","buono","nuovo","vecchio","grande","piccolo","lungo","doppio","triplo","mezzo","paio","dozzina","percento","ore","minuti","secondi","euro","lire","chili","metri","giorni","anni","gradi","volte"],
+        "nl" => vec!["ik","jij","hij","zij","wij","jullie","mij","jou","hem","haar","mijn","jouw","zijn","onze","hun","deze","dit","die","hier","daar","waar","wanneer","waarom","hoe","wat","wie","welke","niet","zeer","ook","alleen","zelfs","altijd","nooit","vaak","straks","later","weer","al","te","veel","weinig","enkele","alle","elke","andere","zulke","nu","vandaag","morgen","gisteren","tijd","dag","week","jaar","mensen","man","vrouw","kind","wereld","leven","hand","deel","plaats","werk","ding","nummer","pagina","kamer","verdieping","ongeveer","bijna","precies","over","onder","tussen","na","voor","in","van","zonder","met","aan","op","bij","als","maar","of","omdat","terwijl","maken","hebben","heeft","had","zijn","was","kan","zal","gaat","komt","zien","nemen","weten","zeggen","goed","nieuw","oud","groot","klein","lang","dubbel","driedubbel","half","paar","dozijn","procent","uur","minuten","seconden","euro","kilo","meter","dagen","graden","keer"],
+        "pt" => vec!["eu","tu","ele","ela","nós","vós","eles","me","te","se","meu","teu","seu","nosso","este","esta","estes","aqui","ali","onde","quando","porque","como","quê","quem","qual","muito","também","só","até","sempre","nunca","logo","depois","outra","vez","já","demasiado","muitos","pouco","alguns","tudo","todos","cada","outro","tal","hoje","amanhã","ontem","tempo","dia","semana","ano","gente","homem","mulher","criança","mundo","vida","mão","parte","lugar","trabalho","coisa","número","página","quarto","andar","cerca","quase","exatamente","sobre","sob","entre","antes","de","sem","para","por","a","se","enquanto","fazer","ter","tem","ser","está","era","pode","vai","vem","ver","tomar","saber","dizer","bom","novo","velho","grande","pequeno","longo","dobro","triplo","meio","meia","par","dúzia","cento","hora","horas","minutos","euros","reais","quilos","metros","dias","anos","graus","vezes","último","próximo"],
+        _ => vec![],
     }
 }
 pub fn vocab(lang: &str) -> Vocab {
@@ -73,7 +90,7 @@ pub fn vocab(lang: &str) -> Vocab {
     }
     set.insert(conjunction(lang).to_string()); set.insert(decimal_sep(lang).to_string()); set.insert(zero_word(lang).to_string());
     if lang == "en" { set.insert("o".into()); }
-    Vocab { classes, ord_class: 5, zero_class: 6, zeros, number_words: set.into_iter().collect(), linking: linking(lang), fillers: fillers(lang), conj: conjunction(lang), sep: decimal_sep(lang), conj_alts: if lang == "nl" { vec!["en", "ën"] } else { vec![conjunction(lang)] } }
+    Vocab { classes, ord_class: 5, zero_class: 6, zeros, number_words: set.into_iter().collect(), linking: linking(lang), fillers: fillers(lang), conj: conjunction(lang), sep: decimal_sep(lang), common: vec![], conj_alts: if lang == "nl" { vec!["en", "ën"] } else { vec![conjunction(lang)] } }
 }
 pub const PUNCT: [&str; 16] = [",", ".", ";", ":", "!", "?", "-", "—", "'", "(", ")", "…", "...", "/", "\u{200b}", "\u{2060}"];
 pub const SPACES: [&str; 8] = [" ", " ", " ", "  ", "\t", "\n", "\u{a0}", "\u{2009}"];
